@@ -45,7 +45,7 @@ def generate(seed, mode="c01", base_cfg=None):
     adv = 0
     planted = None
     if mode == "c02":
-        r = plant.plant(ch, ops, top, prefer=["width_anon_member", "extra_member", "bad_member", "pair_foreign_bundle"] if anon_focus else None)
+        r = plant.plant(ch, ops, top, prefer=["width_anon_member", "extra_member", "bad_member", "pair_foreign_bundle", "superset_bundle"] if anon_focus else None)
         if r is not None:
             ops, cls, site = r
             planted = [cls, site]
